@@ -303,6 +303,7 @@ class C10(Check):
         self._sweep = None
 
     def budget(self, tier, escalated):
+        self._tier = tier
         n = 1 if tier == 'quick' else 6
         return n * (2 if escalated and tier == 'quick' else 1)
 
@@ -321,8 +322,10 @@ class C10(Check):
         return jobs
 
     def _run(self, rng, n):
-        if self._sweep is not None and self._sweep[0] >= n:
-            return self._sweep[1]
+        if getattr(self, '_tier', 'quick') == 'quick':
+            n = min(n, 3)           # an escalated quick run stays a quick run
+        if self._sweep is not None and (self._sweep[0] >= n or self._sweep[1][1]):
+            return self._sweep[1]   # enough explored already, or failing schedules already in hand
         jobs = self._jobs(rng, n)
         res = run_shards(jobs, fn=shard)
         cases, finds = [], []
